@@ -175,7 +175,14 @@ func (x *Exec) staticCall(i *ssa.Call, callee *ssa.Function) Val {
 	}
 	// external
 	x.havocArgs(com.Args, vals)
-	x.w.noteExternal(pkgPath + "." + callee.Name())
+	full := pkgPath + "." + callee.Name()
+	if full == "errors.New" || full == "fmt.Errorf" {
+		x.w.noteTrusted(full, "assumed to return a non-nil error (package documentation)")
+		tag := x.vc.fresh("errtag", sortInt)
+		x.vc.assume(mkCmp(">=", tag, intT64(1000)))
+		return Opaque{Desc: "error from " + full, Tag: tag}
+	}
+	x.w.noteExternal(full)
 	return x.freshVal("ext_"+callee.Name(), resT)
 }
 
